@@ -1,4 +1,36 @@
-(* C18 placeholder - replaced by Model/Report.v theorems below in a later commit *)
-From Coq Require Import List.
-Theorem C18_placeholder : forall (A : Type) (l : list A), map (fun x => x) l = l.
-Proof. intros; apply map_id. Qed.
+(* C18 - Reports say what was scheduled (model of the format-independent table and its renderings):
+   one body row per task in declaration order, leaves only when so requested; every cell is the
+   formatting function applied to the task (a pure function of the schedule: generating reports cannot
+   alter it); with distinct column titles the JSON record of a row carries, under title j, exactly the
+   CSV cell (row, j).  Formatting (strftime, %.2f) and the schedule lookup are compared with the
+   implementation by harness/props/c18.py, which recomputes every expected cell from the ledger. *)
+From Coq Require Import List Bool Arith.
+Require Import SP.Model.Report SP.Proofs.ReportProofs.
+Import ListNotations.
+
+Theorem C18_rows : forall (T C : Type) (is_leaf : T -> bool) (cell : T -> nat -> C) leaf_only ncols tasks,
+  length (body is_leaf cell leaf_only ncols tasks) = length (filter (kept is_leaf leaf_only) tasks) /\
+  forall i t, nth_error (filter (kept is_leaf leaf_only) tasks) i = Some t ->
+              nth_error (body is_leaf cell leaf_only ncols tasks) i = Some (row cell ncols t).
+Proof. intros; apply body_rows. Qed.
+Print Assumptions C18_rows.
+
+Theorem C18_all_tasks : forall (T C : Type) (is_leaf : T -> bool) (cell : T -> nat -> C) ncols tasks,
+  body is_leaf cell false ncols tasks = map (row cell ncols) tasks.
+Proof. intros; apply body_all. Qed.
+
+Theorem C18_cells : forall (T C : Type) (cell : T -> nat -> C) ncols t j, j < ncols ->
+  nth_error (row cell ncols t) j = Some (cell t j).
+Proof. intros; now apply row_cell. Qed.
+
+Theorem C18_json_csv : forall (C H : Type) (eqb : H -> H -> bool), (forall a b, eqb a b = true <-> a = b) ->
+  forall (titles : list H) (r : list C) j h c, NoDup titles -> length r = length titles ->
+  nth_error titles j = Some h -> nth_error r j = Some c ->
+  dict_last eqb h (record titles r) = Some c.
+Proof. intros C H eqb Hs titles r j h c. unfold record. now apply dict_last_combine. Qed.
+Print Assumptions C18_json_csv.
+
+(* the hypothesis matters: with a repeated title the JSON record keeps one of the two cells only *)
+Example C18_duplicate_titles_collapse :
+  dict_last Nat.eqb 7 (record [7; 7] [1; 2]) = Some 2 /\ nth_error [1; 2] 0 = Some 1.
+Proof. split; reflexivity. Qed.
